@@ -147,6 +147,9 @@ def obligations(tier):
             for i in range(n_iter):
                 obs.append(val_step(cfgs[2], n_iter, i, 2))
     obs.append(val_step(cfgs[1], 3, 2, 2))
+    # with tracked parameters: the history rows are the iteration's own parameters, whatever validation retains
+    for i in range(3):
+        obs.append(val_step(cfgs[3], 3, i, 2))
     for wp in (False, True):
         for wo in (False, True):
             obs.append(validation_loss_ob(wp, wo))
